@@ -125,6 +125,31 @@ def evaluate(case):
         if s is not None and not np.array_equal(s.view(np.uint64), a.view(np.uint64)):
             fails.append(f"{entry}: modifies an argument array")
             return fails
+    # whole-number ordinates in an integer array, accompanied by ordinary (fractional) float uncertainties: the uncertainties are read as given
+    up = _unc_positions(entry, len(args))
+    if case["intvalued"] and base[0] == "ok" and up and entry.split(".")[0] != "Pre_Proc":
+        fa, ma = _mk(case), _mk(case)
+        okm = False
+        for k in range(len(fa)):
+            if k in up and fa[k] is not None and not np.isscalar(fa[k]):
+                fa[k] = np.abs(fa[k]) * 0.37 + 0.013
+                ma[k] = fa[k].copy()
+                okm = True
+            elif k in (1,) and ma[k] is not None and not np.isscalar(ma[k]):
+                ma[k] = ma[k].astype(np.int64)          # the ordinate only
+        if okm:
+            rf, rm = impl.call(entry, fa, kw), impl.call(entry, ma, kw)
+            if rf[0] == "ok" and rm[0] == "ok":
+                for k, (a, b) in enumerate(zip(rf[1], rm[1])):
+                    if a is None or b is None:
+                        continue
+                    a, b = np.asarray(a, dtype=float), np.asarray(b, dtype=float)
+                    if a.shape != b.shape or not np.allclose(a, b, rtol=1e-12, atol=1e-12 * max(1.0, float(np.abs(a[np.isfinite(a)]).max(initial=0.0))), equal_nan=True):
+                        fails.append(f"{entry}: output {k} differs between integer-typed and float-typed ordinates when the (float) uncertainties are fractional")
+                        return fails
+            elif rf[0] != rm[0]:
+                fails.append(f"{entry}: integer-typed ordinates with float uncertainties give {rm[0]} where float ordinates give {rf[0]}")
+                return fails
     # what a call returned belongs to the caller: a later call on the same object, with other data of the same shapes, must not change it
     if base[0] == "ok":
         held = [None if a is None else a for a in base[1]]
